@@ -17,6 +17,7 @@ import Mathlib.Algebra.Order.Star.Real
 import Mathlib.LinearAlgebra.Matrix.ToLinearEquiv
 import EasyMl.Model.Decomp
 import EasyMl.Lemmas.RealModel
+import EasyMl.Model.DualElem
 
 namespace EasyMl.Decomp
 open Finset
@@ -704,6 +705,156 @@ theorem ldlt_complete_aux (heq : ∀ a b : K, NumOrd.eq a b = true ↔ a = b) (h
       rintro ⟨h3, _⟩; exact hab h3
 
 end ldltComplete
+
+/-! ### naturality in the element type -/
+
+section natural
+variable {α β : Type}
+  [Add α] [Sub α] [Mul α] [Div α] [Neg α] [Zero α] [One α] [RealFns α] [NumOrd α]
+  [Add β] [Sub β] [Mul β] [Div β] [Neg β] [Zero β] [One β] [RealFns β] [NumOrd β]
+
+/-- a map between element types that commutes with everything the symmetric factorisations use -/
+structure NumHom (φ : α → β) : Prop where
+  zero : φ 0 = 0
+  one : φ 1 = 1
+  add : ∀ a b, φ (a + b) = φ a + φ b
+  sub : ∀ a b, φ (a - b) = φ a - φ b
+  mul : ∀ a b, φ (a * b) = φ a * φ b
+  div : ∀ a b, φ (a / b) = φ a / φ b
+  sqrt : ∀ a, φ (RealFns.sqrt a) = RealFns.sqrt (φ a)
+  le : ∀ a b, NumOrd.le (φ a) (φ b) = NumOrd.le a b
+  eq : ∀ a b, NumOrd.eq (φ a) (φ b) = NumOrd.eq a b
+
+/-- entrywise image of a tensor -/
+def mapM (φ : α → β) (M : Matrix α) : Matrix β := ⟨M.data.map φ, M.rows, M.columns⟩
+
+variable {φ : α → β}
+
+theorem get_mapM (h : NumHom φ) (M : Matrix α) (i j : ℕ) : get (mapM φ M) i j = φ (get M i j) := by
+  simp only [get, mapM, Matrix.getIndex, List.getD_eq_getElem?_getD, List.getElem?_map]
+  cases M.data[j + i * M.columns]? <;> simp [h.zero]
+
+theorem set_mapM (M : Matrix α) (i j : ℕ) (v : α) : set (mapM φ M) i j (φ v) = mapM φ (set M i j v) := by
+  simp [set, mapM, Matrix.getIndex, List.map_set]
+
+theorem fill_mapM (h : NumHom φ) (r c : ℕ) : (fill r c (0 : β)) = mapM φ (fill r c (0 : α)) := by
+  simp [fill, mapM, h.zero]
+
+theorem forRange_map {σ τ : Type} (g : σ → τ) (f : ℕ → σ → Option σ) (f' : ℕ → τ → Option τ)
+    (hf : ∀ k s, f' k (g s) = (f k s).map g) (n : ℕ) (s : σ) :
+    forRange n f' (g s) = (forRange n f s).map g := by
+  induction n with
+  | zero => simp [forRange_zero]
+  | succ n ih =>
+    rw [forRange_succ, forRange_succ, ih]
+    cases forRange n f s with
+    | none => rfl
+    | some t => simp [hf]
+
+theorem foldRange_map {σ τ : Type} (g : σ → τ) (f : ℕ → σ → σ) (f' : ℕ → τ → τ)
+    (hf : ∀ k s, f' k (g s) = g (f k s)) (n : ℕ) (s : σ) :
+    foldRange n f' (g s) = g (foldRange n f s) := by
+  induction n with
+  | zero => simp [foldRange_zero]
+  | succ n ih => rw [foldRange_succ, foldRange_succ, ih, hf]
+
+theorem cholSum_mapM (h : NumHom φ) (L : Matrix α) (i j : ℕ) :
+    cholSum (mapM φ L) i j = φ (cholSum L i j) := by
+  unfold cholSum
+  rw [← h.zero]
+  apply foldRange_map φ
+  intro k s
+  rw [get_mapM h, get_mapM h, h.add, h.mul]
+
+theorem cholEntry_mapM (h : NumHom φ) (A L : Matrix α) (i j : ℕ) :
+    cholEntry (mapM φ A) (mapM φ L) i j = (cholEntry A L i j).map (mapM φ) := by
+  unfold cholEntry
+  simp only [cholSum_mapM h, get_mapM h, ← h.sub, ← h.zero, h.le]
+  by_cases hij : i = j
+  · simp only [hij, if_true]
+    by_cases hle : NumOrd.le (get A j j - cholSum L j j) 0 = true
+    · simp [hle]
+    · simp only [hle, Bool.false_eq_true, if_false, Option.map_some]
+      rw [← h.sqrt, set_mapM]
+  · simp only [hij, if_false, Option.map_some]
+    rw [← h.one, ← h.div, ← h.mul, set_mapM]
+
+/-- **Cholesky is natural in the element type**: a map `φ` between element types that commutes
+    with `+ − × ÷ 0 1 sqrt` and with the comparisons commutes with the factorisation — presence and
+    every entry.  (E.g. the number part of a dual number: the value of the factor over `Trace<T>`
+    is the factor of the values.) -/
+theorem cholesky_natural (h : NumHom φ) (A : Matrix α) :
+    cholesky (mapM φ A) = (cholesky A).map (mapM φ) := by
+  unfold cholesky
+  by_cases hsq : A.rows = A.columns
+  · have h1 : (mapM φ A).rows = (mapM φ A).columns := hsq
+    simp only [hsq, h1, ne_eq, not_true_eq_false, if_false]
+    show forRange A.columns _ (fill A.columns A.columns (0 : β)) = _
+    rw [fill_mapM h]
+    apply forRange_map (mapM φ)
+    intro i L
+    unfold cholRow
+    apply forRange_map (mapM φ)
+    intro j L'
+    exact cholEntry_mapM h A L' i j
+  · have h1 : ¬ (mapM φ A).rows = (mapM φ A).columns := hsq
+    simp [hsq, h1]
+
+theorem ldltSum_mapM (h : NumHom φ) (L D : Matrix α) (i j : ℕ) :
+    ldltSum (mapM φ L) (mapM φ D) i j = φ (ldltSum L D i j) := by
+  unfold ldltSum
+  rw [← h.zero]
+  apply foldRange_map φ
+  intro k s
+  rw [get_mapM h, get_mapM h, get_mapM h, h.add, h.mul, h.mul]
+
+theorem ldltEntry_mapM (h : NumHom φ) (A D : Matrix α) (j t : ℕ) (L : Matrix α) :
+    ldltEntry (mapM φ A) (mapM φ D) j t (mapM φ L) = mapM φ (ldltEntry A D j t L) := by
+  unfold ldltEntry
+  simp only [ldltSum_mapM h, get_mapM h]
+  by_cases ht : j + t = j
+  · simp only [ht, if_true]
+    rw [← h.one, set_mapM]
+  · simp only [ht, if_false]
+    rw [← h.sub, ← h.one, ← h.div, ← h.mul, set_mapM]
+
+theorem ldltColumn_mapM (h : NumHom φ) (A : Matrix α) (n j : ℕ) (s : Matrix α × Matrix α) :
+    ldltColumn (mapM φ A) n j (mapM φ s.1, mapM φ s.2)
+      = (ldltColumn A n j s).map (fun s => (mapM φ s.1, mapM φ s.2)) := by
+  obtain ⟨L, D⟩ := s
+  unfold ldltColumn
+  simp only [ldltSum_mapM h, get_mapM h, ← h.sub, ← h.zero, h.eq]
+  by_cases hz : NumOrd.eq (get A j j - ldltSum L D j j) 0 = true
+  · simp [hz]
+  · simp only [hz, Bool.false_eq_true, if_false, Option.map_some, Option.some.injEq, Prod.mk.injEq]
+    simp only [set_mapM, and_true]
+    apply foldRange_map (mapM φ)
+    intro t L'
+    exact ldltEntry_mapM h A _ j t L'
+
+/-- **LDLᵀ is natural in the element type** (as `cholesky_natural`; no `sqrt` involved). -/
+theorem ldlt_natural (h : NumHom φ) (A : Matrix α) :
+    ldlt (mapM φ A) = (ldlt A).map (fun s => (mapM φ s.1, mapM φ s.2)) := by
+  unfold ldlt
+  by_cases hsq : A.rows = A.columns
+  · have h1 : (mapM φ A).rows = (mapM φ A).columns := hsq
+    simp only [hsq, h1, ne_eq, not_true_eq_false, if_false]
+    show forRange A.columns _ (fill A.columns A.columns (0 : β), fill A.columns A.columns (0 : β)) = _
+    rw [fill_mapM h]
+    exact forRange_map (fun s : Matrix α × Matrix α => (mapM φ s.1, mapM φ s.2)) _ _
+      (fun j s => ldltColumn_mapM h A A.columns j s) A.columns
+      (fill A.columns A.columns (0 : α), fill A.columns A.columns (0 : α))
+  · have h1 : ¬ (mapM φ A).rows = (mapM φ A).columns := hsq
+    simp [hsq, h1]
+
+
+/-- the number part of a dual number commutes with everything the factorisations use -/
+theorem dualNumber_hom {R : Type} [Add R] [Sub R] [Mul R] [Div R] [Neg R] [Zero R] [One R]
+    [RealFns R] [NumOrd R] : NumHom (Dual.number : Dual R → R) :=
+  ⟨rfl, rfl, fun _ _ => rfl, fun _ _ => rfl, fun _ _ => rfl, fun _ _ => rfl, fun _ => rfl,
+    fun _ _ => rfl, fun _ _ => rfl⟩
+
+end natural
 
 /-! ### bridge to Mathlib matrices -/
 
